@@ -179,3 +179,80 @@ def mon_c01(case):
         if c == 9 and out != [rescap]:
             return step, f"cap() = {out}, configured {rescap}"
     return None
+
+
+def mon_c05(case):
+    """no operation (and no accepted constructor call) panics"""
+    for step, (op, out, cb, acct, snap) in enumerate(case["lines"], 1):
+        if out == [-1000]:
+            what = "the constructor" if op and op[0] == 98 else ("drop" if op and op[0] == 99 else f"operation {op}")
+            return step, f"{what} panicked"
+    return None
+
+
+def mon_c16(case):
+    """clone: the clone (which replaces the original in the harness) has the same snapshot"""
+    prev = None
+    for step, (op, out, cb, acct, snap) in enumerate(case["lines"], 1):
+        if op and op[0] == 25 and prev is not None and out != [-1000]:
+            if snap != prev:
+                return step, f"the clone differs from the original: {prev} -> {snap}"
+            if out == [-6]:
+                return step, "dropping the original released the wrong number of keys/values"
+        if op and op[0] == 91 and out == [-6]:
+            return step, "the TinyLFU clone differs from the original"
+        if op and op[0] == 29 and out != [1]:
+            return step, "an operation on the clone changed the original (or vice versa)"
+        if out != [-1000]:
+            prev = snap
+    return None
+
+
+def sampled_snap(snap):
+    if len(snap) < 4:
+        return None
+    mx, used, samples, n = snap[:4]
+    pairs = {snap[4 + 2 * i]: snap[5 + 2 * i] for i in range(n)}
+    return mx, used, samples, pairs
+
+
+def mon_c20(case):
+    """SampledLFU: room_left, update/remove results and fill_sample against the tracked pairs"""
+    if case["kind"] != 6:
+        return None
+    prev = (case["cfg"][0], 0, case["cfg"][1], {})
+    for step, (op, out, cb, acct, snap) in enumerate(case["lines"], 1):
+        if not op or op[0] in (98, 99) or out == [-1000]:
+            continue
+        cur = sampled_snap(snap)
+        if cur is None:
+            return step, "unreadable snapshot"
+        mx, used, samples, pairs = prev
+        c = op[0]
+        if c == 119 and out != [mx - sum(pairs.values()) - op[1]]:
+            return step, f"room_left({op[1]}) = {out}, max {mx}, recorded costs {pairs}"
+        if c in (112, 113):
+            k = op[1] if c == 112 else op[3]
+            if out != [int(k in pairs)]:
+                return step, f"update reported {out} for key {k}, tracked {sorted(pairs)}"
+        if c in (114, 115):
+            k = op[1] if c == 114 else op[2]
+            want = [1, pairs[k]] if k in pairs else [0]
+            if out != want:
+                return step, f"remove({k}) returned {out}, recorded {pairs.get(k)}"
+        if c == 120:
+            nin = op[1]
+            inp = op[2:2 + 2 * nin]
+            napp = op[2 + 2 * nin]
+            app = op[3 + 2 * nin:]
+            appp = [(app[2 * i], app[2 * i + 1]) for i in range(napp)]
+            want_n = 0 if nin >= samples else min(samples - nin, len(pairs))
+            if out != [1]:
+                return step, "fill_sample did not return its input first"
+            if len(appp) != want_n or any(pairs.get(k) != v for k, v in appp) or len({k for k, _ in appp}) != len(appp):
+                return step, f"fill_sample appended {appp}; tracked {pairs}, samples {samples}, input {nin}"
+        # the accounting identity on the new state
+        if cur[1] != sum(cur[3].values()):
+            return step, f"used = {cur[1]} but the recorded costs sum to {sum(cur[3].values())}"
+        prev = cur
+    return None
